@@ -1,10 +1,10 @@
-"""C04 — PLS regression is a correct least-squares family (partly decided: betas = score predictor, monotone RSS, equivariance)."""
+"""C04 — PLS regression is a correct least-squares family (partly decided: betas = score predictor, monotone RSS, OLS limit for one predictor, equivariance)."""
 from ..core import Ob
 from . import C03
 T = C03.T
 META = dict(
     functions=['PLSBetasCoeff', 'PLSScorePredictor', 'PLSYPredictor', 'LVCalc', 'MatrixInversion', 'MatrixDotProduct'],
-    bounds='betas vs score predictor: 2..3 predictors, 1..2 latent variables (2x2 Gauss-Jordan inverse), every x; RSS identity and equivariance: X 3x2 (2x2), single response, one latent variable from the invariant loop-head state; inner relation b = u\'t/t\'t: C03 grid',
+    bounds='betas vs score predictor: 2..3 predictors, 1..2 latent variables (2x2 Gauss-Jordan inverse), every x; RSS identity and equivariance: X 3x2 (2x2), single response, one latent variable from the invariant loop-head state; OLS limit (normal equations after rank(X) latent variables): one predictor, 2..4 objects (two predictors attempted in thorough); inner relation b = u\'t/t\'t: C03 grid',
     outside='the OLS limit at full rank (a chain over all latent variables: measured out of reach), more than 2 latent variables in the coefficient form, several responses in the RSS identity, rounding',
     stubs=['calcConvergence forced', 'loop-head hook sets the carried y-score to the response column (loop invariant for one response, itself an obligation)'],
     assumptions=['structural facts of PLS on the symbolic model: p_k.w_k = 1, p_i.w_j = 0 for i > j (C03)', 'nonzero divisors'],
@@ -24,6 +24,9 @@ def obligations(tier):
                       remove=('calcConvergence',), stubs=R, real={'nomissing': True}))
     for (n, mm) in ([] if not th else [(2, 2), (3, 2)]):      # measured undecided at 120 s: attempted in thorough only
         obs.append(Ob(id=f'equivariance/{n}x{mm}', harness='C04/rss.c', tus=T, defs={'HP_WHICH': 1, 'HP_N': n, 'HP_M': mm}, engine='real', unwind=8, timeout=to, clause='predictions equivariant to scaling of a centred response',
+                      remove=('calcConvergence',), stubs=R, real={'nomissing': True}))
+    for (n, mm) in ([(2, 1), (3, 1), (4, 1)] if not th else [(2, 1), (3, 1), (4, 1), (5, 1), (3, 2)]):      # two predictors (two deflated passes): measured undecided at 360 s, attempted in thorough only
+        obs.append(Ob(id=f'ols_limit/{n}x{mm}', harness='C04/rss.c', tus=T, defs={'HP_WHICH': 2, 'HP_N': n, 'HP_M': mm}, engine='real', unwind=8, timeout=to if mm == 1 else 3 * to, clause='with rank(X) latent variables the PLS fit is the OLS fit (normal equations)',
                       remove=('calcConvergence',), stubs=R, real={'nomissing': True}))
     # inner relation and Y deflation: the C03 latent-variable obligations (part 1)
     for o in C03.obligations(tier):
